@@ -38,24 +38,42 @@ pub trait ChainStore: Send + Sync + Sized {
         BorrowedDataLoaderWrapper::new(self)
     }
 
+    /// Get the block with the given hash from the freezer, if it has been frozen.
+    ///
+    /// The bodies, uncles, proposals and extensions of frozen blocks are wiped out of the
+    /// key-value store (only the header stays), so every accessor of a block part falls back to
+    /// this when its own row is gone.
+    ///
+    /// Costs nothing when the freezer is disabled, and one (cached) header lookup for a block that
+    /// is not frozen.
+    fn get_frozen_block(&self, h: &packed::Byte32) -> Option<BlockView> {
+        self.freezer()?;
+        let header = self.get_block_header(h)?;
+        self.get_frozen_block_by_header(&header)
+    }
+
+    /// Get the block with the given header from the freezer, if it has been frozen.
+    fn get_frozen_block_by_header(&self, header: &HeaderView) -> Option<BlockView> {
+        let freezer = self.freezer()?;
+        if header.number() == 0 || header.number() >= freezer.number() {
+            return None;
+        }
+        let raw_block = freezer.retrieve(header.number()).expect("block frozen")?;
+        let raw_block = packed::BlockReader::from_compatible_slice(&raw_block)
+            .expect("checked data")
+            .to_entity();
+        let block = raw_block.into_view();
+        // the freezer is indexed by height and only holds main-chain blocks: a block stored
+        // under another hash at an already frozen height (a late side-chain block) must not be
+        // answered with the main-chain block of that height; it still lives in the kv store
+        (block.hash() == header.hash()).then_some(block)
+    }
+
     /// Get block by block header hash
     fn get_block(&self, h: &packed::Byte32) -> Option<BlockView> {
         let header = self.get_block_header(h)?;
-        if let Some(freezer) = self.freezer()
-            && header.number() > 0
-            && header.number() < freezer.number()
-        {
-            let raw_block = freezer.retrieve(header.number()).expect("block frozen")?;
-            let raw_block = packed::BlockReader::from_compatible_slice(&raw_block)
-                .expect("checked data")
-                .to_entity();
-            let block = raw_block.into_view();
-            // the freezer is indexed by height and only holds main-chain blocks: a block stored
-            // under another hash at an already frozen height (a late side-chain block) must not be
-            // answered with the main-chain block of that height; it still lives in the kv store
-            if &block.hash() == h {
-                return Some(block);
-            }
+        if let Some(block) = self.get_frozen_block_by_header(&header) {
+            return Some(block);
         }
         let body = self.get_block_body(h);
         let uncles = self
@@ -98,16 +116,23 @@ pub trait ChainStore: Send + Sync + Sized {
     /// Get block body by block header hash
     fn get_block_body(&self, hash: &packed::Byte32) -> Vec<TransactionView> {
         let prefix = hash.as_slice();
-        self.get_iter(
-            COLUMN_BLOCK_BODY,
-            IteratorMode::From(prefix, Direction::Forward),
-        )
-        .take_while(|(key, _)| key.starts_with(prefix))
-        .map(|(_key, value)| {
-            let reader = packed::TransactionViewReader::from_slice_should_be_ok(value.as_ref());
-            Into::<TransactionView>::into(reader)
-        })
-        .collect()
+        let ret: Vec<TransactionView> = self
+            .get_iter(
+                COLUMN_BLOCK_BODY,
+                IteratorMode::From(prefix, Direction::Forward),
+            )
+            .take_while(|(key, _)| key.starts_with(prefix))
+            .map(|(_key, value)| {
+                let reader = packed::TransactionViewReader::from_slice_should_be_ok(value.as_ref());
+                Into::<TransactionView>::into(reader)
+            })
+            .collect();
+        if ret.is_empty()
+            && let Some(block) = self.get_frozen_block(hash)
+        {
+            return block.transactions();
+        }
+        ret
     }
 
     /// Get unfrozen block from ky-store with given hash
@@ -171,6 +196,13 @@ pub trait ChainStore: Send + Sync + Sized {
                 reader.hash().to_entity()
             })
             .collect();
+        let ret = if ret.is_empty() {
+            self.get_frozen_block(hash)
+                .map(|block| block.tx_hashes().to_vec())
+                .unwrap_or(ret)
+        } else {
+            ret
+        };
 
         if let Some(cache) = self.cache() {
             cache.block_tx_hashes.lock().put(hash.clone(), ret.clone());
@@ -195,6 +227,10 @@ pub trait ChainStore: Send + Sync + Sized {
             .map(|slice| {
                 packed::ProposalShortIdVecReader::from_slice_should_be_ok(slice.as_ref())
                     .to_entity()
+            })
+            .or_else(|| {
+                self.get_frozen_block(hash)
+                    .map(|block| block.data().proposals())
             });
 
         if let Some(cache) = self.cache() {
@@ -214,10 +250,14 @@ pub trait ChainStore: Send + Sync + Sized {
             return Some(data.clone());
         };
 
-        let ret = self.get(COLUMN_BLOCK_UNCLE, hash.as_slice()).map(|slice| {
-            let reader = packed::UncleBlockVecViewReader::from_slice_should_be_ok(slice.as_ref());
-            Into::<UncleBlockVecView>::into(reader)
-        });
+        let ret = self
+            .get(COLUMN_BLOCK_UNCLE, hash.as_slice())
+            .map(|slice| {
+                let reader =
+                    packed::UncleBlockVecViewReader::from_slice_should_be_ok(slice.as_ref());
+                Into::<UncleBlockVecView>::into(reader)
+            })
+            .or_else(|| self.get_frozen_block(hash).map(|block| block.uncles()));
 
         if let Some(cache) = self.cache() {
             ret.inspect(|uncles| {
@@ -238,7 +278,11 @@ pub trait ChainStore: Send + Sync + Sized {
 
         let ret = self
             .get(COLUMN_BLOCK_EXTENSION, hash.as_slice())
-            .map(|slice| packed::BytesReader::from_slice_should_be_ok(slice.as_ref()).to_entity());
+            .map(|slice| packed::BytesReader::from_slice_should_be_ok(slice.as_ref()).to_entity())
+            .or_else(|| {
+                self.get_frozen_block(hash)
+                    .and_then(|block| block.extension())
+            });
 
         if let Some(cache) = self.cache() {
             cache.block_extensions.lock().put(hash.clone(), ret.clone());
@@ -471,10 +515,15 @@ pub trait ChainStore: Send + Sync + Sized {
         let key = packed::TransactionKey::new_builder()
             .block_hash(hash.to_owned())
             .build();
-        self.get(COLUMN_BLOCK_BODY, key.as_slice()).map(|slice| {
-            let reader = packed::TransactionViewReader::from_slice_should_be_ok(slice.as_ref());
-            Into::<TransactionView>::into(reader)
-        })
+        self.get(COLUMN_BLOCK_BODY, key.as_slice())
+            .map(|slice| {
+                let reader = packed::TransactionViewReader::from_slice_should_be_ok(slice.as_ref());
+                Into::<TransactionView>::into(reader)
+            })
+            .or_else(|| {
+                self.get_frozen_block(hash)
+                    .and_then(|block| block.transaction(0))
+            })
     }
 
     /// Gets latest built filter data block hash
@@ -497,6 +546,9 @@ pub trait ChainStore: Send + Sync + Sized {
 
     /// Gets block bytes by block hash
     fn get_packed_block(&self, hash: &packed::Byte32) -> Option<packed::Block> {
+        if let Some(block) = self.get_frozen_block(hash) {
+            return Some(block.data());
+        }
         let header = self
             .get(COLUMN_BLOCK_HEADER, hash.as_slice())
             .map(|slice| {
